@@ -187,7 +187,7 @@ contract(
         implies(fst(old.self.pending_response) != PENDING, fst(self.pending_response) == fst(old.self.pending_response)),
     ] + host_flushed_post(self, old, ghost),
     ensures_names=['pending-command-released', 'pending-command-failed-with-error', 'finished-response-untouched'] + FLUSHED_NAMES,
-    modifies=FLUSH_MOD + ['self.pending_response.st'],
+    modifies=FLUSH_MOD + ['self.pending_response.st', 'self.pending_response.exc'],
     inline=FUT_INLINE + ['TransportLostError.__init__', 'BaseBumbleError.__init__', 'Host._forget_links'],
     note='no `raises`: in whatever state the pending response future is (pending, already resolved by the response that just arrived, '
          'cancelled by its caller), no exception escapes and the flush is emitted',
